@@ -633,23 +633,29 @@ def it_fchild(r, ctx):
 
 
 def it_fenv(r, ctx):
-    """a closure whose environment is still on the stack of a suspended fiber"""
+    """a closure whose environment is still on the stack of a suspended fiber; in the image either the
+    fiber comes first (the closure's environment is a back reference) or the closure does (the fiber,
+    and the frame that owns the environment, are unmarshalled while the environment is under construction)"""
     n = r.choice([2, 3, 5])
     pre = r.randint(1, n + 1)
+    closure_first = r.random() < 0.5
+    F, C = ("(X 1)", "(X 0)") if closure_first else ("(X 0)", "(X 1)")
     b = ("((fn [] (def box @[nil])\n"
          "   (def f (fiber/new (fn es [] (var c %s) (def pad %s) (put box 0 (fn bump [d] (set c (+ c d)))) (var i 0)\n"
          "      (while (< i %d) (set c (+ c (yield c))) (++ i)) c)))\n"
-         "   %s [f (box 0)]))" % (num(r), num(r), n, pre_resumes(r, pre)))
+         "   %s %s))" % (num(r), num(r), n, pre_resumes(r, pre), "[(box 0) f]" if closure_first else "[f (box 0)]"))
     ops = []
     for _ in range(r.randint(2, 5)):
         if r.random() < 0.5:
-            ops.append({"cls": "behaviour/closure-env-on-fiber-stack", "e": "((X 1) %s)" % small(r)})
+            ops.append({"cls": "behaviour/closure-env-on-fiber-stack", "e": "(%s %s)" % (C, small(r))})
         else:
-            ops.append({"cls": "behaviour/closure-env-on-fiber-stack", "e": "(do (def before ((X 1) 0)) [before (resume (X 0) %s) (fiber/status (X 0)) ((X 1) 0)])" % small(r)})
-    ops.append({"cls": "behaviour/closure-env-on-fiber-stack", "e": "[%s ((X 1) 1)]" % drain("(X 0)")})
+            ops.append({"cls": "behaviour/closure-env-on-fiber-stack", "e": "(do (def before (%s 0)) [before (resume %s %s) (fiber/status %s) (%s 0)])" % (C, F, small(r), F, C)})
+    ops.append({"cls": "behaviour/closure-env-on-fiber-stack", "e": "[%s (%s 1)]" % (drain(F), C)})
     tags = ["fiber", "shared_env"]
     if pre <= n:
         tags += ["fiber_suspended", "env_on_stack"]
+        if closure_first:
+            tags.append("env_before_its_fiber")
     return {"k": "fenv", "b": b, "needs": "none", "tags": tags}, ops
 
 
